@@ -118,6 +118,11 @@ class VConfig:
             pts = np.hstack((pts, np.zeros((len(pts), 1))))
         else:
             box = freud.box.Box(Lx=L[0], Ly=L[1], Lz=L[2])
+        # the peer computes in single precision and can take the whole process down on coincident
+        # points: never hand it a point set that collapses in its own precision
+        p32 = np.asarray(box.wrap(np.asarray(pts, dtype=np.float32)))
+        if len(np.unique(p32, axis=0)) < len(p32):
+            return None
         v = freud.locality.Voronoi()
         v.compute((box, pts))
         nl = np.array(v.nlist)
@@ -146,11 +151,21 @@ class VConfig:
             L = self.Ls[t]
             centre = self.los[t] + L / 2
             a = self._tess(pos, centre, L)
+            if a is None:
+                out.append(({}, np.zeros(len(pos)), 0.0, False))
+                continue
             robust = a[2] >= 1e-3
-            for shift in (np.zeros(self.ndim), centre + rng.uniform(-0.5, 0.5, size=self.ndim) * L):
+            # "as recorded" is a translation the wrapper can really use (bounds that sum to zero);
+            # far from the origin single precision has no digits left for it, so a second nearby
+            # translation takes its place there
+            second = np.zeros(self.ndim) if float(np.max(np.abs(pos))) < 200.0 else centre + rng.uniform(-0.5, 0.5, size=self.ndim) * L
+            for shift in (second, centre + rng.uniform(-0.5, 0.5, size=self.ndim) * L):
                 if not robust:
                     break
                 b = self._tess(pos, shift, L)
+                if b is None:
+                    robust = False
+                    break
                 robust = set(a[0]) == set(b[0]) and all(len(a[0][k]) == len(b[0][k]) for k in a[0]) \
                     and all(abs(x - y) <= 1e-5 + 1e-5 * abs(x) for k in a[0] for x, y in zip(a[0][k], b[0][k])) \
                     and float(np.max(np.abs(a[1] - b[1]))) <= 1e-5 * (1 + float(np.max(a[1])))
